@@ -19,8 +19,8 @@ import time
 import traceback
 
 VERIF = os.path.dirname(os.path.dirname(os.path.abspath(__file__)))
-EVIDENCE_DIR = os.path.join(VERIF, "evidence")
-REPLAY_DIR = os.path.join(VERIF, "replays")
+EVIDENCE_DIR = os.environ.get("VERIF_EVIDENCE_DIR") or os.path.join(VERIF, "evidence")
+REPLAY_DIR = os.environ.get("VERIF_REPLAY_DIR") or os.path.join(VERIF, "replays")
 KNOWN_FINDINGS = os.path.join(VERIF, "known_findings.json")
 DEFAULT_SEED = 20260928
 NPROC = int(os.environ.get("VERIF_NPROC", "16"))
@@ -206,6 +206,71 @@ def fanout(fn, tasks, nproc=None, task_wall=600, total_wall=None, stop_when=None
                 f.cancel()
             raise HarnessError("fan-out exceeded its wall-clock limit of %s s" % total_wall)
     return [(tasks[i], results[i]) for i in sorted(results)], time.time() - t0
+
+
+def fanout_isolated(modname, funcname, tasks, nproc=None, task_wall=1800, stop_when=None):
+    """Like fanout, but every task runs in its own fresh interpreter (subprocess), so that code under
+    test which crashes the process (heap corruption in a broken C routine) takes down one task only.
+    A task that dies yields {"crashed": returncode, "stderr": tail}.  Results in task order."""
+    import pickle
+    import subprocess
+    import tempfile
+    import threading
+    nproc = nproc or NPROC
+    main_py = os.path.join(VERIF, "sim", "main.py")
+    results = {}
+    stop = threading.Event()
+    tmpdir = tempfile.mkdtemp(prefix="verif-iso-", dir=os.path.join(VERIF, ".cache") if os.path.isdir(os.path.join(VERIF, ".cache")) else None)
+    t0 = time.time()
+
+    def run_one(i):
+        if stop.is_set():
+            return
+        out = os.path.join(tmpdir, "r%d.pkl" % i)
+        argf = os.path.join(tmpdir, "a%d.pkl" % i)
+        with open(argf, "wb") as f:
+            pickle.dump(tasks[i], f)
+        try:
+            p = subprocess.run([sys.executable, "-u", main_py, "--worker", modname, funcname, argf, out],
+                               stdout=subprocess.PIPE, stderr=subprocess.STDOUT, timeout=task_wall)
+            rc, tail = p.returncode, p.stdout.decode(errors="replace")[-3000:]
+        except subprocess.TimeoutExpired:
+            rc, tail = -999, "task wall-clock limit (%s s) exceeded" % task_wall
+        if rc == 0 and os.path.exists(out):
+            with open(out, "rb") as f:
+                results[i] = pickle.load(f)
+        else:
+            results[i] = {"crashed": rc, "stderr": tail}
+        for fn in (out, argf):
+            try:
+                os.remove(fn)
+            except OSError:
+                pass
+        if stop_when is not None and stop_when(results[i]):
+            stop.set()
+
+    try:
+        with cf.ThreadPoolExecutor(max_workers=min(nproc, max(1, len(tasks)))) as ex:
+            list(ex.map(run_one, range(len(tasks))))
+    finally:
+        import shutil
+        shutil.rmtree(tmpdir, ignore_errors=True)
+    return [(tasks[i], results[i]) for i in sorted(results)], time.time() - t0
+
+
+def worker_main(argv):
+    """Entry of an isolated worker: main.py --worker <module> <function> <argfile> <outfile>."""
+    import importlib
+    import pickle
+    modname, funcname, argf, out = argv
+    faulthandler.enable()
+    with open(argf, "rb") as f:
+        args = pickle.load(f)
+    mod = importlib.import_module(modname)
+    res = getattr(mod, funcname)(*args)
+    with open(out + ".tmp", "wb") as f:
+        pickle.dump(res, f)
+    os.replace(out + ".tmp", out)
 
 
 # ----------------------------------------------------------------------------------------------
